@@ -321,6 +321,10 @@ class HubRun:
             return None
         call, path = p["call"], p["path"]
         rel = os.path.relpath(path, self.root) if path.startswith(self.root) else ""
+        if call == "read" and getattr(self, "reads_visible", False) and rel and not rel.endswith(STG) and not rel.startswith(".copia"):
+            # reads through a descriptor of a LIVE file are private as long as commits replace files by rename (the inode a
+            # reader holds never changes); programs that test exactly that assumption schedule them
+            return "visible"
         if call in ("read0", "write1", "sendfile1", "close", "fsync", "mkdir", "read"):
             return "private"
         if rel == ".copia/commit.lock" and call == "open" and getattr(self, "lock_open_visible", False):
